@@ -6,8 +6,8 @@ from bounded import drivers, catalog as C
 def run(tier, seed, repo, focus=None):
     quick = tier == "quick"
     res = Result("C16", "bounded/b_C16.py",
-                 "DDM/EDDM/STEPD/ADWINAccuracy under 10 label encodings (ints, strings, bools, floats, -1/+1, three "
-                 "classes with same agreement, class names that are prefixes of one another, int label vs float prediction), LinearFourRates under 0/1 container variants, and every detector with "
+                 "DDM/EDDM/STEPD/ADWINAccuracy under 11 label encodings (ints, strings, bools, floats, -1/+1, three "
+                 "classes with same agreement, class names that are prefixes of one another, int label vs float prediction, floats 1e-9 apart), LinearFourRates under 0/1 container variants, and every detector with "
                  "arbitrary values in its documented-unused arguments; full output traces must coincide; "
                  "non-trivial = trace reaches warning or drift", {"seeds": 2 if quick else 6})
     known = load_known()
